@@ -57,6 +57,8 @@ inductive RdErr where
 structure Src where
   chunks : List Bytes
   fin : Fin
+  /-- io.Reader allows the last data to arrive together with the error (`n > 0, io.EOF`). -/
+  dataWithFin : Bool := false
   deriving DecidableEq, Repr, Inhabited
 
 def Src.bytes (s : Src) : Bytes := s.chunks.flatten
@@ -66,7 +68,8 @@ def Src.read (s : Src) (k : Nat) : Bytes × Option Fin × Src :=
   match s.chunks with
   | [] => ([], some s.fin, s)
   | c :: cs =>
-    if c.length ≤ k then (c, none, { s with chunks := cs })
+    if c.length ≤ k then
+      (c, if cs.isEmpty && s.dataWithFin then some s.fin else none, { s with chunks := cs })
     else (c.take k, none, { s with chunks := c.drop k :: cs })
 
 /-- Go's io.ReadFull loop over the chunk list: bytes obtained and chunks left. -/
